@@ -42,10 +42,29 @@ def cases(draw, algos=("mgm", "mgm2", "dsa")):
             "seed": draw(st.integers(0, 10000))}
 
 
+@st.composite
+def coincidence_cases(draw):
+    """DSA where every variable carries its own cost and every cost is drawn from {0,1,2}: sums computed in two
+    different ways (with / without the variable's own cost) coincide often and several values tie for the best one -
+    the corner where the branches of the three variants that handle 'no gain' are entered with unusual arguments."""
+    desc = draw(gen.dcops(min_vars=2, max_vars=4, min_dom=2, max_dom=3, max_constraints=4, arities=(1, 2, 2),
+                          var_costs=False, costs=gen.tie_costs, kinds=("matrix",), str_domains=False, initial=True,
+                          shape="connected"))
+    for v in desc["variables"]:
+        n = len(desc["domains"][v["domain"]])
+        v["cost"] = {"kind": "dict", "costs": draw(st.lists(gen.tie_costs, min_size=n, max_size=n))}
+    params = {"stop_cycle": draw(st.integers(3, 10)), "variant": draw(st.sampled_from(["A", "B", "C", "C"])),
+              "p_mode": "fixed", "probability": draw(st.sampled_from([0.3, 0.7, 1.0]))}
+    return {"dcop": desc, "algo": "dsa", "params": params, "schedule": draw(gen.schedules(120)),
+            "seed": draw(st.integers(0, 10000))}
+
+
 def case_strategy(tier):
     import os
     only = os.environ.get("VF_ALGOS")
-    return cases(tuple(only.split(","))) if only else cases()
+    if only:
+        return cases(tuple(only.split(",")))
+    return st.one_of(cases(), cases(), cases(), coincidence_cases())
 
 
 def run_case(case):
